@@ -393,77 +393,85 @@ func (c *Ctx) subrRules(info *types.Info, clauses map[string]*ast.CaseClause) {
 }
 
 func (c *Ctx) charstringDecryption() {
-	info := c.info("type1")
-	fd := c.funcDecl("type1", "", "deobfuscateCharstring")
+	fn := c.fn("type1", "deobfuscateCharstring")
 	fname := "type1.deobfuscateCharstring"
-	c.charstringKey(fd, info, fname)
-	var rng *ast.RangeStmt
-	ast.Inspect(fd.Body, func(n ast.Node) bool {
-		if r, ok := n.(*ast.RangeStmt); ok && rng == nil {
-			rng = r
+	// evaluate the function on six symbolic cipher bytes for each number of lead bytes
+	c1 := c.constInt("type1", "eexecC1")
+	c2 := c.constInt("type1", "eexecC2")
+	run := func(ncipher int, n int64) (res sv, ev *ssaEval) {
+		ev = &ssaEval{c: c, bind: map[ssa.Value]sv{}, mem: map[string]sv{}}
+		var cipher []sv
+		for i := 0; i < ncipher; i++ {
+			cipher = append(cipher, symV(fmt.Sprintf("c%d", i)))
 		}
-		return true
-	})
-	if rng == nil {
-		c.fail("CIPHER-SHAPE", fname, "decryption loop", fd.Pos(), "no loop over the cipher bytes")
-		return
+		ret := ev.runFunc(fn, []sv{ev.newList(cipher), intV(n)})
+		if len(ret) == 1 {
+			res = ret[0]
+		}
+		return res, ev
 	}
-	env := &symEnv{info: info, vars: map[string]string{}}
-	env.exec(fd.Body.List) // constants c1, c2, R
-	var state *ast.Ident
-	ast.Inspect(fd.Body, func(n ast.Node) bool {
-		if vs, ok := n.(*ast.ValueSpec); ok && len(vs.Values) == 1 {
-			if v, ok := constIntOf(info, vs.Values[0]); ok && v == 4330 {
-				state = vs.Names[0]
+	var bad []string
+	for _, n := range []int64{0, 1, 4, 6} {
+		res, ev := run(6, n)
+		got, ok := ev.elems(res)
+		if !ok || ev.why != "" {
+			bad = append(bad, fmt.Sprintf("lenIV %d: not evaluable (%s)", n, ev.why))
+			continue
+		}
+		// reference: r0 = 4330; plain_j = c_j ^ byte(r_j >> 8); r_{j+1} = (c_j + r_j)*c1 + c2 in 16 bits
+		r := intV(4330)
+		var want []string
+		for j := 0; j < 6; j++ {
+			cj := symV(fmt.Sprintf("c%d", j))
+			var hi sv
+			if r.k == svInt {
+				hi = intV(int64(uint8(uint16(r.i) >> 8)))
+			} else {
+				hi = term("u8", term(">>u16", r, intV(8)))
+			}
+			if int64(j) >= n {
+				want = append(want, term("^u8", cj, hi).String())
+			}
+			r = term("+u16", term("*u16", term("+u16", cj, r), intV(c1)), intV(c2))
+		}
+		var gs []string
+		for _, g := range got {
+			gs = append(gs, g.String())
+		}
+		if strings.Join(gs, " ") != strings.Join(want, " ") {
+			k := 0
+			for k < len(gs) && k < len(want) && gs[k] == want[k] {
+				k++
+			}
+			g, w := "nothing", "nothing"
+			if k < len(gs) {
+				g = gs[k]
+			}
+			if k < len(want) {
+				w = want[k]
+			}
+			bad = append(bad, fmt.Sprintf("with lenIV %d the decoder outputs %d bytes, expected %d; output byte %d is %s, expected %s", n, len(gs), len(want), k, g, w))
+		}
+	}
+	c.check(len(bad) == 0, "CIPHER-SHAPE", fname, "plain = cipher ^ (r >> 8), r = (cipher + r)*c1 + c2 from key 4330, the first lenIV bytes decrypted but not output", fn.Pos(), "six symbolic cipher bytes × lenIV 0, 1, 4, 6", "charstring decryption: "+joinMax(bad, 2))
+	// lenIV outside 0..len(cipher): no charstring, no crash
+	okGuard := true
+	why := ""
+	for _, n := range []int64{-1, -1000000000000000, 7, 1 << 40} {
+		res, ev := run(6, n)
+		panics := false
+		for _, ef := range ev.effects {
+			if ef.what == "panic" {
+				panics = true
 			}
 		}
-		return true
-	})
-	if state == nil {
-		return
-	}
-	env.bind(state, "r")
-	if id, ok := rng.Value.(*ast.Ident); ok {
-		env.bind(id, "in")
-	}
-	// the appended plaintext byte, evaluated before the state update
-	out := ""
-	skipOK := false
-	for _, st := range rng.Body.List {
-		if ifs, ok := st.(*ast.IfStmt); ok {
-			// if i >= n { plain = append(plain, …) }
-			if be, ok := ifs.Cond.(*ast.BinaryExpr); ok && be.Op == token.GEQ {
-				if k, ok := rng.Key.(*ast.Ident); ok && types.ExprString(be.X) == k.Name {
-					if p, ok := be.Y.(*ast.Ident); ok {
-						if _, isParam := info.ObjectOf(p).(*types.Var); isParam {
-							skipOK = true
-						}
-					}
-				}
-			}
-			ast.Inspect(ifs.Body, func(n ast.Node) bool {
-				if call, ok := n.(*ast.CallExpr); ok {
-					if id, ok := call.Fun.(*ast.Ident); ok && id.Name == "append" && len(call.Args) == 2 {
-						out = env.term(call.Args[1])
-					}
-				}
-				return true
-			})
-		} else {
-			env.exec([]ast.Stmt{st})
+		el, isList := ev.elems(res)
+		if panics || ev.why != "" || !(res.k == svNil || (isList && len(el) == 0)) {
+			okGuard = false
+			why = fmt.Sprintf("lenIV %d gives %s (%s)", n, ev.render(res), ev.why)
 		}
 	}
-	k, _ := env.key(state)
-	c.check(out == termOUT, "CIPHER-SHAPE", fname, "plain = cipher ^ (r >> 8)", rng.Pos(), out, "charstring decryption computes the plaintext as "+out+", expected "+termOUT)
-	c.check(env.vars[k] == termRDEC, "CIPHER-SHAPE", fname, "r = (cipher + r)*c1 + c2 (cipher byte fed back, for every byte including the lead bytes)", rng.Pos(), env.vars[k], "charstring decryption updates its state as "+env.vars[k]+", expected "+termRDEC)
-	c.check(skipOK, "CIPHER-SHAPE", fname, "the first lenIV bytes are decrypted but not output", rng.Pos(), "if i >= n { append }", "the lead bytes are not skipped by position (i >= n)")
-	// negative / oversized lenIV guarded
-	okGuard := false
-	if ifs, ok := fd.Body.List[0].(*ast.IfStmt); ok {
-		s := types.ExprString(ifs.Cond)
-		okGuard = strings.Contains(s, "n < 0") && strings.Contains(s, "len(cipher) < n")
-	}
-	c.check(okGuard, "CIPHER-SHAPE", fname, "lenIV outside 0..len(cipher) yields no charstring", fd.Pos(), "n < 0 || len(cipher) < n → nil", "negative or oversized lenIV is not rejected before the output buffer is sized")
+	c.check(okGuard, "CIPHER-SHAPE", fname, "lenIV outside 0..len(cipher) yields no charstring", fn.Pos(), "lenIV -1, -10^15, 7, 2^40 on six bytes → empty", "negative or oversized lenIV is not rejected before the output buffer is sized: "+why)
 }
 
 func (c *Ctx) readDefaults() {
